@@ -7,10 +7,10 @@ use crate::src::Src;
 use exmex::verif_hooks::*;
 use exmex::BinOp;
 
-fn t1(x: u64) -> u64 { 16 * x + 1 }
-fn t2(x: u64) -> u64 { 16 * x + 2 }
-fn t3(x: u64) -> u64 { 16 * x + 3 }
-fn t4(x: u64) -> u64 { 16 * x + 4 }
+fn t1(x: u64) -> u64 { x.wrapping_mul(16).wrapping_add(1) }
+fn t2(x: u64) -> u64 { x.wrapping_mul(16).wrapping_add(2) }
+fn t3(x: u64) -> u64 { x.wrapping_mul(16).wrapping_add(3) }
+fn t4(x: u64) -> u64 { x.wrapping_mul(16).wrapping_add(4) }
 fn pair(a: u64, b: u64) -> u64 { 256 * a + 16 * b + 9 }
 const T: [fn(u64) -> u64; 4] = [t1, t2, t3, t4];
 
@@ -80,4 +80,28 @@ harness!(unary_append_iter, unwind = 5, |s| {
     core::mem::forget(c);
 });
 
-registry!("u4", unary_apply, flatop_apply, unary_append_after, unary_remove_latest, unary_append_iter);
+/// native-only probe beyond the inline capacity of the function list (16): 17 / 18 existing functions, two
+/// new ones appended after them; the expected value is the composition written out with wrapping arithmetic
+pub fn unary_append_big<S: Src>(s: &mut S) {
+    let x = s.u64();
+    let n = 15 + s.choice(6) as usize; // 15..=20 existing functions
+    let w = |k: usize, v: u64| v.wrapping_mul(16).wrapping_add(k as u64 + 1);
+    let existing: Vec<UnaryFuncWithIdx<u64>> = (0..n).map(|i| UnaryFuncWithIdx { f: T[i % 4], idx: i % 4 }).collect();
+    let mut a = UnaryOp::from_iter(existing.into_iter());
+    // inner value: f0(f1(..f_{n-1}(x)))
+    let mut inner = x;
+    for i in (0..n).rev() { inner = w(i % 4, inner); }
+    assert!(a.apply(x) == inner, "C01 unary operators compose right-to-left (long chain)");
+    a.append_after_iter([UnaryFuncWithIdx { f: T[2], idx: 2 }, UnaryFuncWithIdx { f: T[1], idx: 1 }].into_iter());
+    // new functions run after the existing ones, the first of them last: t3(t2(inner))
+    assert!(a.apply(x) == w(2, w(1, inner)), "C01 append_after_iter: the new functions are applied after the existing ones, first of them last (long chain)");
+    let mut b = chain(2);
+    let big: Vec<UnaryFuncWithIdx<u64>> = (0..n).map(|i| UnaryFuncWithIdx { f: T[(i + 1) % 4], idx: (i + 1) % 4 }).collect();
+    let inner_b = b.apply(x);
+    b.append_after(UnaryOp::from_iter(big.into_iter()));
+    let mut e = inner_b;
+    for i in (0..n).rev() { e = w((i + 1) % 4, e); }
+    assert!(b.apply(x) == e, "C01 a.append_after(b): b is applied after a (long chain)");
+}
+
+registry!("u4", unary_append_big, unary_apply, flatop_apply, unary_append_after, unary_remove_latest, unary_append_iter);
